@@ -23,8 +23,8 @@ if [ "$what" = seeded ] || [ "$what" = all ]; then
   echo "seeded: $(grep -c violated= $tmp/out.txt) patches evaluated"
 fi
 if [ "$what" = refactors ] || [ "$what" = all ]; then
-  if ls -d /verif/refactors/C*/r? >/dev/null 2>&1; then
-    run "/verif/refactors/C*/r?"
+  if ls -d /verif/refactors/C*/r* >/dev/null 2>&1; then
+    run "/verif/refactors/C*/r*"
     grep -v 'violated=\[\]' $tmp/out.txt | sed 's/^/FALSE-ALARM: /' && rc=1
     echo "refactors: $(grep -c 'violated=\[\]' $tmp/out.txt) of $(grep -c violated= $tmp/out.txt) silent"
   fi
